@@ -170,6 +170,27 @@ def e2e_edges():
             + wrap_positions([(dict(s), pos) for s in MULT for pos in ("required", "optional", "nullable")]))
 
 
+def both_blocks_cases():
+    """a root that carries `$defs` AND the legacy `definitions`, with the same names and different bounds: a reference into `$defs` gets the bounds
+    stated there (the legacy block is read only when `$defs` is absent), at a property, an item and a map value"""
+    from vlib.kitchen import Case
+    out = []
+    for i, (new, old, vals) in enumerate((({"type": "integer", "minimum": 1, "maximum": 10}, {"type": "integer", "minimum": 1, "maximum": 5}, [(1, True), (6, True), (10, True), (11, False), (0, False)]),
+                                           ({"type": "number", "exclusiveMinimum": 0}, {"type": "number", "minimum": 0}, [(0.5, True), (0, False), (-1, False)]),
+                                           ({"type": "integer", "multipleOf": 2}, {"type": "integer", "multipleOf": 3, "maximum": 4}, [(2, True), (8, True), (3, False)]))):
+        root = {"type": "object", "$defs": {"Level": new, "Other": {"type": "string"}}, "definitions": {"Level": old, "OnlyLegacy": {"type": "boolean"}},
+                "properties": {"level": {"$ref": "#/$defs/Level"}, "levels": {"type": "array", "items": {"$ref": "#/$defs/Level"}},
+                               "by": {"type": "object", "additionalProperties": {"$ref": "#/$defs/Level"}}, "o": {"$ref": "#/$defs/Other"}}}
+        docs = []
+        for v, ok in vals:
+            e = "ACC" if ok else "REJ"
+            docs.append({"doc": {"level": v}, "cls": "number-valid" if ok else "bound", "path": ("level",), "expect": e})
+            docs.append({"doc": {"levels": [vals[0][0], v]}, "cls": "number-valid" if ok else "bound", "path": ("levels", 1), "expect": e})
+            docs.append({"doc": {"by": {"k": v}}, "cls": "number-valid" if ok else "bound", "path": ("by", "k"), "expect": e})
+        out.append(Case("c05bb%d" % i, root, docs, fam="both-definition-blocks", no_model=True))
+    return out
+
+
 def e2e_fractional():
     return wrap_positions([(dict(s, type="integer"), pos) for s in FRACTIONAL for pos in ("required", "optional", "nullable")])
 
@@ -215,7 +236,11 @@ def run_e2e(ctx):
     cases = cases + ms
     from vlib.overlay import overlay_cases
     cases = cases + overlay_cases("bound", "c05")
-    run_cases(ctx, cases, "c05e")
+    from vlib.overlay import sibling_group_cases
+    from vlib.valuecheck import expect_cases
+    sg = sibling_group_cases("bound", "c05") + both_blocks_cases()
+    run_cases(ctx, cases + sg, "c05e")
+    expect_cases(ctx, sg, "numeric bounds")
     evaluate(ctx, cases, classes, {"bound": "invalid", "number-valid": "valid", "optional-absent": "by-spec", "null-allowed": "valid", "valid": "valid"},
              "numeric bounds")
     c = cases[11]
